@@ -86,7 +86,23 @@ func (b *simBuilder) Build() (cloudprovider.CloudProvider, error) {
 	if err := cloud.RegisterNodeGroups(b.cfgs...); err != nil {
 		return nil, err
 	}
-	return cloud, nil
+	return &recCloud{CloudProvider: cloud, w: b.w}, nil
+}
+
+// recCloud marks the one place where the cloudprovider interface says cached cloud state is
+// renewed: Refresh. Whenever the code under test calls it (at the top of a scan today, but it is free
+// to call it again before a later group), the describe answers served inside it feed the known-ASG
+// model and are journalled as scan-level calls, not as calls of the group whose turn came before.
+type recCloud struct {
+	cloudprovider.CloudProvider
+	w *World
+}
+
+func (r *recCloud) Refresh() error {
+	prev := r.w.ctx
+	r.w.ctx = ""
+	defer func() { r.w.ctx = prev }()
+	return r.CloudProvider.Refresh()
 }
 
 // recording listers: hand the controller exactly what the (real) filtered
@@ -104,18 +120,30 @@ type recNodes struct {
 	inner k8s.NodeLister
 }
 
-func (r *recPods) List() ([]*v1.Pod, error) {
-	w := r.sup.w
-	w.catchUp()
-	w.flushDescribeLines()
-	w.ctx = r.g
-	var gs *GroupScan
-	if w.scan != nil && r.idx < len(w.scan.Groups) {
-		gs = w.scan.Groups[r.idx]
+// enter marks the start of a group's turn in the scan. Whichever of the group's two
+// listers is called first starts it (the code under test is free to list nodes
+// before pods); the second call of the same turn only adds its half of the view.
+func (s *Supervisor) enter(g string, idx int) *GroupScan {
+	w := s.w
+	if w.scan == nil || idx >= len(w.scan.Groups) {
+		w.ctx = g
+		return nil
+	}
+	gs := w.scan.Groups[idx]
+	if w.gscan != gs || w.ctx != g {
+		w.catchUp()
+		w.flushDescribeLines()
+		w.ctx = g
 		gs.Reached = true
 		w.gscan = gs
-		r.sup.effectiveBounds(gs)
+		s.effectiveBounds(gs)
 	}
+	return gs
+}
+
+func (r *recPods) List() ([]*v1.Pod, error) {
+	w := r.sup.w
+	gs := r.sup.enter(r.g, r.idx)
 	pods, err := r.inner.List()
 	if gs != nil {
 		gs.PodsErr = err != nil
@@ -135,19 +163,20 @@ func (r *recPods) List() ([]*v1.Pod, error) {
 
 func (r *recNodes) List() ([]*v1.Node, error) {
 	w := r.sup.w
+	gs := r.sup.enter(r.g, r.idx)
 	nodes, err := r.inner.List()
-	if w.gscan != nil && w.gscan.Group == r.g {
-		w.gscan.NodesErr = err != nil
-		w.gscan.NodesListed = true
-		w.gscan.Nodes = make([]*v1.Node, 0, len(nodes))
+	if gs != nil {
+		gs.NodesErr = err != nil
+		gs.NodesListed = true
+		gs.Nodes = make([]*v1.Node, 0, len(nodes))
 		for _, n := range nodes {
 			if pn := w.kube.pristineNode(n); pn != nil {
-				w.gscan.Nodes = append(w.gscan.Nodes, pn)
+				gs.Nodes = append(gs.Nodes, pn)
 			} else {
-				w.gscan.Nodes = append(w.gscan.Nodes, n.DeepCopy())
+				gs.Nodes = append(gs.Nodes, n.DeepCopy())
 			}
 		}
-		w.gscan.TList = time.Now()
+		gs.TList = time.Now()
 	}
 	w.logf("list g=%s nodes n=%d err=%v", r.g, len(nodes), err != nil)
 	return nodes, err
